@@ -69,8 +69,9 @@ class Statistics:
         return Statistics(
             sum=self.sum + other.sum,
             sum2=self.sum2 + other.sum2,
-            min=min(self.min, other.min),
-            max=max(self.max, other.max),
+            # np.minimum / np.maximum keep NaN (invalid statistics) whichever side it is on
+            min=float(np.minimum(self.min, other.min)),
+            max=float(np.maximum(self.max, other.max)),
             weight=self.weight + other.weight,
             median=np.nan,
         )
